@@ -196,3 +196,38 @@ def lemmas_c09():
     em = is_min(Fm, qm, a1, k, z3.IntVal(MAX32))
     out.append(("c09:merged-estimate>=min(sum-of-estimates,ceiling)", hm + ea + eb + em, qm >= zmin(qa + qb, MAX32)))
     return out, hm
+
+
+def lemmas_c12_linear():
+    """add(key, v) equals v single adds (linear count-min): closed form F_j of the state after j
+    unit adds, proved inductive (unit step) and equal to the bulk add at j = v.
+       M_j = min(m + j, MAX32);  F_j(r,c) = M_j if c is the key's counter in row r and cms0(r,c) < M_j
+       else cms0(r,c);  n_added_j = n_added_0 + min(j, MAX32 - m)."""
+    E = Env()
+    out = []
+    cms0, ca, cb = fn("cms0", 2), fn("cms_a", 2), fn("cms_b", 2)
+    kid, j, m, ma, v, r, c = z3.Ints("key j m ma v r c")
+    n0 = fn("nn0", 1)
+    M = lambda jj: zmin(m + jj, MAX32)
+    Fj = lambda jj: (lambda r_, c_: z3.If(z3.And(c_ == E.col(kid, r_), cms0(r_, c_) < M(jj)), M(jj), cms0(r_, c_)))
+    Nj = lambda jj: n0(0) + zmin(jj, MAX32 - m)
+    F0, _, _ = add_frame(E, cms0, cms0, kid, z3.IntVal(0), m)
+    min0 = is_min(F0, m, cms0, kid, z3.IntVal(MAX32))
+    rng = [r >= 0, r < E.depth, c >= 0, c < E.width]
+    base = E.base + [E.typed(cms0), n0(0) >= 0, n0(0) + MAX32 < TWO64] + min0
+    qr, qc = z3.Ints("qr qc")
+    inrange = z3.And(qr >= 0, qr < E.depth, qc >= 0, qc < E.width)
+    # unit step: state a == F_j, one unit add a -> b, then b == F_{j+1}
+    Fa, na0, na1 = add_frame(E, ca, cb, kid, z3.IntVal(1), ma, "u")
+    is_Fj = z3.ForAll([qr, qc], z3.Implies(inrange, ca(qr, qc) == Fj(j)(qr, qc)))
+    hy = base + [j >= 0, E.typed(ca), E.typed(cb), is_Fj, na0(0) == Nj(j)] + add_hyps(E, Fa, ("x-", ""))
+    out.append(("c12:linear:unit-add-advances-the-closed-form (cells)", hy + rng, cb(r, c) == Fj(j + 1)(r, c)))
+    out.append(("c12:linear:unit-add-advances-the-closed-form (n_added)", hy, na1(0) == Nj(j + 1)))
+    # bulk add with multiplicity v equals the closed form at j = v
+    c1 = fn("cms1", 2)
+    Fb, nb0, nb1 = add_frame(E, cms0, c1, kid, v, m, "b")
+    hb = base + [v >= 0, v <= MAX32, E.typed(c1), nb0(0) == n0(0)] + [f for n, f in clauses(C.AddLinear().ensures(Fb), prefixes=("x-", ""))]
+    out.append(("c12:linear:bulk-add-is-the-closed-form-at-v (cells)", hb + rng, c1(r, c) == Fj(v)(r, c)))
+    out.append(("c12:linear:bulk-add-is-the-closed-form-at-v (n_added)", hb, nb1(0) == Nj(v)))
+    out.append(("c12:linear:closed-form-at-0-is-the-start-state", base + rng, Fj(z3.IntVal(0))(r, c) == cms0(r, c)))
+    return out
